@@ -352,6 +352,7 @@ func c20Items() []c14Item {
 func c20Inside(src string) bool {
 	toks := stokens(src)
 	depth := 0
+	inVerbatim := false
 	in := ""
 	for i, t := range toks {
 		in = t.in
@@ -380,6 +381,16 @@ func c20Inside(src string) bool {
 			if !closed {
 				continue
 			}
+			if inVerbatim { // a verbatim body is text: only the end tag counts
+				if name == "endverbatim" {
+					inVerbatim = false
+					depth--
+				}
+				continue
+			}
+			if name == "verbatim" {
+				inVerbatim = true
+			}
 			switch name {
 			case "if", "for", "block", "filter", "macro", "embed", "verbatim":
 				depth++
@@ -394,7 +405,7 @@ func c20Inside(src string) bool {
 			}
 		}
 	}
-	if len(toks) > 0 {
+	if len(toks) > 0 && !inVerbatim {
 		last := toks[len(toks)-1]
 		if last.kind != kClose && last.in != "" {
 			return true
